@@ -4,7 +4,7 @@
 From Coq Require Import Extraction ExtrOcamlBasic.
 From V.Lib Require Import Bytes Base64.
 From V.Lib Require Import NetAddr.
-From V.Model Require Import Signed Cookies CookieStore Jar Csrf.
+From V.Model Require Import Signed Cookies CookieStore Jar Csrf Ticket.
 Extraction Blacklist String List Nat Bytes Int Char Array Buffer Hashtbl Printf Sx Conv Adapters Driver.
 Set Extraction Optimize.
 Separate Extraction
@@ -16,4 +16,5 @@ Separate Extraction
   CookieStore.store_save CookieStore.store_load CookieStore.store_clear CookieStore.split_cookie_name
   CookieStore.load_cookie
   Jar.jar_apply Jar.jar_cookies
-  Csrf.callback_state Csrf.decode_state Csrf.encode_state Csrf.generate_cookie_name Csrf.own_cookie_name Csrf.start_state.
+  Csrf.callback_state Csrf.decode_state Csrf.encode_state Csrf.generate_cookie_name Csrf.own_cookie_name Csrf.start_state Csrf.load_csrf
+  Ticket.decode_ticket Ticket.encode_ticket Ticket.ticket_from_request Ticket.manager_load Ticket.manager_clear Ticket.manager_save.
